@@ -120,6 +120,9 @@ def run(chk: core.Check):
                 docgen.gen_entry(d, rnd, rnd.choice(pool) + str(j), fields=[(k, rnd.choice(refvals)) for k in rnd.sample(pool, rnd.randint(0, 3))], ws=["", " "])
             d.add(rnd.choice(["\n", " ", ""]))
         garb.append(d.text)
+    # the same entry / string key two and three times, for keys that look like format fields, escapes, percent codes, ...
+    for key in ["a\\{b", "a\\}b", "\\{0\\}", "\\{\\}", "%s", "%(x)s", "{0", "a b", "é", "", "k", "\\", "$1", "\\n", "a\\\"b", "0"]:
+        garb.append("@a{%s, x = 1}\n@b{%s, y = {2}}\n@string{%s = 1}\n@string{%s = \"2\"}\n@a{%s}" % ((key,) * 5))
     recs = splitpipe.t3(chk, bib, texts + garb)
     chk.clause("T3.families", len(texts))
     chk.clause("T3.garbage", len(garb))
